@@ -113,7 +113,7 @@ Proof. exact ohv_is_opv. Qed.
 Print Assumptions C05_ohv_is_opv_of_parents.
 (** the cross maps list every pair of distinct parents (resp. every pair) exactly as index pairs a < b (resp. a <= b) *)
 Theorem C05_cross_map_pairs : forall n a b, (In [a; b] (pairs_unique n) <-> (a < b < n)%nat) /\ (In [a; b] (pairs_any n) <-> (a <= b < n)%nat).
-Proof. intros n a b. split; [apply pairs_unique_spec | apply pairs_any_spec]. Qed.
+Proof. exact cross_map_pairs. Qed.
 Print Assumptions C05_cross_map_pairs.
 
 (** non-vacuity: concrete values meeting the hypotheses used above *)
